@@ -16,6 +16,7 @@ fn main() {
     }
     // library panics are data; keep stderr quiet
     std::panic::set_hook(Box::new(|_| {}));
+    trace::start_watchdog(std::env::var("VH_WATCHDOG").ok().and_then(|s| s.parse().ok()).unwrap_or(30));
     let mut opts: HashMap<String, String> = HashMap::new();
     let mut i = 3;
     while i + 1 < args.len() {
@@ -28,15 +29,99 @@ fn main() {
             let out = opts.get("out").expect("--out");
             let mut tr = trace::Tr::create(out);
             let seed = get("seed", 1);
+            let mut extra = String::new();
             match args[2].as_str() {
                 "hist" => drivers::hist::run(&mut tr, seed, get("histories", 10) as usize, get("len", 60) as usize),
+                "codes" => {
+                    let (tests, distinct) = drivers::codes::run(
+                        &mut tr,
+                        seed,
+                        opts.get("mode").map(|s| s.as_str()).unwrap_or("alone"),
+                        get("full", 0) != 0,
+                        get("shard", 0) as usize,
+                        get("nshards", 1) as usize,
+                    );
+                    extra = format!(",\"tests\":{},\"distinct\":{}", tests, distinct);
+                }
+                "tables" => {
+                    let (tests, distinct) = drivers::tables::run(
+                        &mut tr,
+                        seed,
+                        get("full", 0) != 0,
+                        get("shard", 0) as usize,
+                        get("nshards", 1) as usize,
+                        get("frac", 1) as usize,
+                    );
+                    extra = format!(",\"tests\":{},\"distinct\":{}", tests, distinct);
+                }
+                "eof" => {
+                    let (tests, distinct) = drivers::eof::run(
+                        &mut tr,
+                        seed,
+                        get("streams", 2) as usize,
+                        get("len", 30) as usize,
+                        get("shard", 0) as usize,
+                        get("nshards", 1) as usize,
+                        get("cutstep", 1) as usize,
+                    );
+                    extra = format!(",\"tests\":{},\"distinct\":{}", tests, distinct);
+                }
+                "copy" => {
+                    let (tests, distinct) = drivers::copy::run(
+                        &mut tr,
+                        seed,
+                        opts.get("rpaths").expect("--rpaths"),
+                        opts.get("wpaths").expect("--wpaths"),
+                        get("full", 0) != 0,
+                        get("shard", 0) as usize,
+                        get("nshards", 1) as usize,
+                    );
+                    extra = format!(",\"tests\":{},\"distinct\":{}", tests, distinct);
+                }
+                "wrappers" => {
+                    let (tests, distinct) = drivers::wrappers::run(&mut tr, seed, get("histories", 10) as usize, get("len", 40) as usize);
+                    extra = format!(",\"tests\":{},\"distinct\":{}", tests, distinct);
+                }
+                "dirty" => {
+                    let (tests, distinct) = drivers::dirty::run(&mut tr, seed);
+                    extra = format!(",\"tests\":{},\"distinct\":{}", tests, distinct);
+                }
+                "wordbackend" => {
+                    let (tests, distinct) = drivers::wordbackend::run(&mut tr, seed, opts.get("paths").expect("--paths"), get("seqlen", 3) as usize, get("randlen", 2000) as usize);
+                    extra = format!(",\"tests\":{},\"distinct\":{}", tests, distinct);
+                }
+                "wstates" => {
+                    let (tests, distinct) = drivers::wstates::run(
+                        &mut tr,
+                        seed,
+                        opts.get("paths").expect("--paths"),
+                        opts.get("ops").map(|s| s.as_str()).unwrap_or("c01"),
+                        get("full", 0) != 0,
+                        get("shard", 0) as usize,
+                        get("nshards", 1) as usize,
+                    );
+                    extra = format!(",\"tests\":{},\"distinct\":{}", tests, distinct);
+                }
+                "rstates" => {
+                    let (tests, distinct) = drivers::rstates::run(
+                        &mut tr,
+                        seed,
+                        opts.get("paths").expect("--paths"),
+                        opts.get("ops").map(|s| s.as_str()).unwrap_or("c02"),
+                        get("full", 0) != 0,
+                        get("shard", 0) as usize,
+                        get("nshards", 1) as usize,
+                        get("images", 2) as usize,
+                    );
+                    extra = format!(",\"tests\":{},\"distinct\":{}", tests, distinct);
+                }
                 d => {
                     eprintln!("unknown driver {}", d);
                     std::process::exit(2);
                 }
             }
             let n = tr.finish();
-            println!("{{\"events\":{}}}", n);
+            println!("{{\"events\":{}{}}}", n, extra);
         }
         "exec" => {
             // vh exec <schedule> --out FILE
